@@ -35,6 +35,7 @@ from ..model import APK, AnalysisError, walk_no_nested
 from ..modeleval import (Interp, Env, Obj, PyModel, PyRaise, NotModelled, Sink, Stop, Lin, clone_func, _Return, _Builtin)
 from ..spec import apksig
 
+OWN_MUTATION_ADEQUACY = True  # mutation_adequacy() below runs rule-specific breaking and benign edits
 LENIENT = ("loguru.logger", "logger", "logging")
 SCHEMES = {"v2": apksig.V2_ID, "v3": apksig.V3_ID, "v3.1": apksig.V31_ID, "other": apksig.VERITY_PADDING_ID}
 NAME_OF = {v: k for k, v in SCHEMES.items()}
@@ -108,6 +109,7 @@ class Anchors:
         self.cls = m.cls("APK")
         self.blk = m.cls("APKV2SignatureBlock")
         self.parse = m.func("APK.parse_v2_v3_signature")
+        self.defaults = _init_defaults(self.cls)
         for q in ("APK.parse_v2_v3_signature", "APK.parse_v3_signing_block", "APK.parse_v2_signing_block",
                   "APK.has_duplicate_apk_signature_ids", "APKV2SignatureBlock.__init__"):
             sink.analysed(m.func(q))
@@ -137,11 +139,29 @@ class Anchors:
             sink.require(len(rets) >= 1 and len(attrs) == 1 and all(isinstance(n.value, ast.Attribute) for n in rets),
                          "%s no longer returns a single attribute of self" % g)
             self.flag_attr[scheme] = attrs.pop()
-        sink.require(len(set(self.flag_attr.values())) == 3, "the three presence getters do not return three distinct attributes")
+
+
+def _init_defaults(cls):
+    """attributes the constructor initialises with a constant or an empty container"""
+    out = {}
+    init = cls.lookup("__init__")
+    if init is None:
+        return out
+    for n in walk_no_nested(init.node):
+        if isinstance(n, ast.Assign) and len(n.targets) == 1 and isinstance(n.targets[0], ast.Attribute) \
+                and isinstance(n.targets[0].value, ast.Name) and n.targets[0].value.id == "self":
+            v = n.value
+            if isinstance(v, ast.Constant):
+                out[n.targets[0].attr] = ("const", v.value)
+            elif isinstance(v, (ast.List, ast.Dict, ast.Tuple)) and not getattr(v, "elts", getattr(v, "keys", None)):
+                out[n.targets[0].attr] = ("new", {ast.List: list, ast.Dict: dict, ast.Tuple: tuple}[type(v)])
+    return out
 
 
 def _self_obj(an, **attrs):
     o = Obj(an.cls)
+    for k, (kind, v) in an.defaults.items():
+        o.attrs[k] = v if kind == "const" else v()
     o.attrs.update(attrs)
     return o
 
@@ -346,7 +366,10 @@ def check_loop_and_flags(sink, repo, an):
         except PyRaise as e:
             raise AnalysisError("statements after the pair loop raised %s in the model" % e)
         for scheme, g in FLAG_GETTERS.items():
-            got = it.call(it.getattr(me, g), [])
+            try:
+                got = it.call(it.getattr(me, g), [])
+            except PyRaise as e:
+                got = "raises %s" % e.name
             want = SCHEMES[scheme] in seq
             okf = (got is True and want) or (got is False and not want)
             if not okf:
@@ -413,12 +436,16 @@ def _signer_list_attrs(repo, an):
         it = _interp(repo, an, natives={"io.BytesIO": _bytesio_native})
         me = _self_obj(an, **{a: False for a in an.flag_attr.values()})
         me.attrs[an.blocks_attr] = []
-        before = set(me.attrs)
+        for k, (kind, v) in an.defaults.items():
+            if k.endswith("signing_data") or kind == "new":
+                me.attrs[k] = None
+        before = {k: me.attrs[k] for k in me.attrs}
         try:
             it.call(it.getattr(me, f.node.name), [], dict(kw))
-        except (PyRaise, _Selected) as e:
-            raise AnalysisError("%s does not return on an APK without signing block (model): %r" % (q, e))
-        new = [k for k in me.attrs if k not in before and me.attrs[k] == []]
+        except (PyRaise, _Selected):
+            pass  # reported by the selection rule; the reset list is still observable
+        new = [k for k in me.attrs if isinstance(me.attrs[k], list) and me.attrs[k] == [] and before.get(k, 0) is None or
+               (k not in before and me.attrs[k] == [])]
         if len(new) != 1:
             raise AnalysisError("%s(%s) resets %d list attributes on the absent path, expected one" % (q, kw, len(new)))
         out[scheme] = new[0]
@@ -724,7 +751,10 @@ def mutation_adequacy(ctx, repo):
 
 def run(ctx):
     ctx.explanation = __doc__
-    core(ctx, ctx.repo)
+    try:
+        core(ctx, ctx.repo)
+    except PyRaise as e:
+        raise AnalysisError("model evaluation raised %s outside a decided clause" % e)
     ctx.floor("magic_tests", 1)
     ctx.floor("flag_inits", 3)
     ctx.floor("size_checks", 1)
